@@ -19,7 +19,8 @@ CONSTANTS Listeners, Senders,
           MaxSends,          \* events per sender
           SendCtxMayEnd,     \* TRUE: a sender's own context may end while it waits (Value.Set's timeout)
           ListenerLock,      \* TRUE = the code: l.m makes stop() exclusive with senders inside l.send
-          Eager              \* TRUE (Gen): steps the code takes by itself are taken as soon as they are enabled
+          Eager,             \* TRUE (Gen): steps the code takes by itself are taken as soon as they are enabled
+          MaxCancels         \* Gen: at most this many listeners are cancelled (the others stay live to the end)
 
 VARIABLES
   reg,       \* sequence of listeners registered on the bus
@@ -60,6 +61,7 @@ Listen(l) ==
 \* the subscriber's context is cancelled (possibly before Listen is even called)
 Cancel(l) ==
   /\ ctx[l] = "live"
+  /\ (Eager => Cardinality({ x \in Listeners : ctx[x] = "cancelled" }) < MaxCancels)
   /\ Step("Cancel", l, None)
   /\ ctx' = [ctx EXCEPT ![l] = "cancelled"]
   \* a send that the listener has not been live for entirely owes it nothing
@@ -191,7 +193,8 @@ SenderNotStuck == \A s \in Senders, l \in Listeners :
 ----------------------------------------------------------------------------
 \* Gen: print complete behaviours (every sender has sent everything, every listener was cancelled and closed)
 Terminal == /\ \A s \in Senders : spc[s] \in {"idle", "done"} /\ (count[s] = MaxSends \/ spc[s] = "done")
-            /\ \A l \in Listeners : closed[l]
+            /\ \A l \in Listeners : lpc[l] = "listening" /\ (ctx[l] = "cancelled" => closed[l])
+            /\ Cardinality({ x \in Listeners : ctx[x] = "cancelled" }) = MaxCancels
 EmitCase == Terminal => PrintT("CASE " \o ToJson([
                nl |-> Cardinality(Listeners), ns |-> Cardinality(Senders), maxSends |-> MaxSends, sched |-> sched,
                expect |-> [got |-> [l \in 1..Cardinality(Listeners) |-> got[l]],
